@@ -42,48 +42,52 @@ package allocator
 
 // ---- the allocator's representation invariant (C01, C11) ----
 // Every secondary map is a function of `allocated`. The G-versions carry a pending pseudo-entry
-// (on, svc, al, i, j): service svc still counts as holding the addresses al.ips[i..], and for al.ips[i]
-// its ports al.ports[0..j) have already been released. Inv(a) is the G-version with the entry off.
+// (on, svc, al, i, j): service svc (already removed from `allocated`, its record is al) still counts as
+// holding the addresses al.ips[i..], and for al.ips[i] its ports al.ports[0..j) are already released.
+// Inv(a) is the G-version with the entry switched off.
+// Opaque predicates read only immutable data (alloc records); everything that depends on the mutable
+// maps is passed to them as an argument, so that one symbol serves all program states.
 
-//@ pred HasIP(al *alloc, x string) := exists k int :: 0 <= k && k < len(al.ips) && net.ipstr(al.ips[k]) == x
-//@ pred HasPort(al *alloc, p Port) := exists m int :: 0 <= m && m < len(al.ports) && al.ports[m] == p
-//@ pred WFAlloc(al *alloc) := al != nil && len(al.ports) >= 1 && 1 <= len(al.ips) && len(al.ips) <= 2
+//@ opaque pred HasIP(al *alloc, x string) := exists k int :: 0 <= k && k < len(al.ips) && net.ipstr(al.ips[k]) == x
+//@ opaque pred HasPort(al *alloc, p Port) := exists m int :: 0 <= m && m < len(al.ports) && al.ports[m] == p
+//@ opaque pred WFAlloc(al *alloc) := al != nil && len(al.ports) >= 1 && 1 <= len(al.ips) && len(al.ips) <= 2
 //@     && (forall m int, n int :: 0 <= m && m < n && n < len(al.ports) ==> al.ports[m] != al.ports[n])
 //@     && (len(al.ips) == 2 ==> net.ipstr(al.ips[0]) != net.ipstr(al.ips[1]))
-//@ pred PendingIP(al *alloc, i int, x string) := exists k int :: i <= k && k < len(al.ips) && net.ipstr(al.ips[k]) == x
-//@ pred ReleasedPort(al *alloc, i int, j int, x string, p Port) :=
+//@ opaque pred PendingIP(al *alloc, i int, x string) := exists k int :: i <= k && k < len(al.ips) && net.ipstr(al.ips[k]) == x
+//@ opaque pred ReleasedPort(al *alloc, i int, j int, x string, p Port) :=
 //@     0 <= i && i < len(al.ips) && net.ipstr(al.ips[i]) == x && (exists m int :: 0 <= m && m < j && m < len(al.ports) && al.ports[m] == p)
+//@ pred PoolMapsFor(a *Allocator, pool string) := a.poolIPsInUse[pool] != nil && a.poolIPV4InUse[pool] != nil && a.poolIPV6InUse[pool] != nil
 
-//@ opaque pred HoldsG(a *Allocator, on bool, svc string, al *alloc, i int, s string, x string) :=
-//@     (a.allocated[s] != nil && HasIP(a.allocated[s], x)) || (on && s == svc && PendingIP(al, i, x))
-//@ fun AllocG(a *Allocator, on bool, svc string, al *alloc, s string) *alloc := ite(on && s == svc, al, a.allocated[s])
-//@ opaque pred OwnsPortG(a *Allocator, on bool, svc string, al *alloc, i int, j int, s string, x string, p Port) :=
-//@     HoldsG(a, on, svc, al, i, s, x) && HasPort(AllocG(a, on, svc, al, s), p) && !(on && s == svc && ReleasedPort(al, i, j, x, p))
+// HoldsG: s (whose record in `allocated` is cur) holds address x, through `allocated` or as the pending entry.
+//@ opaque pred HoldsG(cur *alloc, on bool, svc string, al *alloc, i int, s string, x string) :=
+//@     (cur != nil && HasIP(cur, x)) || (on && s == svc && PendingIP(al, i, x))
+// OwnsPortG: s (in == "s is recorded on x", cur == its record) uses port p on address x and, if it is the pending entry, has not released it yet.
+//@ opaque pred OwnsPortG(in bool, cur *alloc, on bool, svc string, al *alloc, i int, j int, s string, x string, p Port) :=
+//@     in && HasPort(ite(on && s == svc, al, cur), p) && !(on && s == svc && ReleasedPort(al, i, j, x, p))
 
-//@ pred InvMaps(a *Allocator) := a != nil && a.allocated != nil && a.sharingKeyForIP != nil && a.portsInUse != nil && a.servicesOnIP != nil
+// InvMaps: the maps exist, the eight maps of type map[string]<reference> are distinct objects, and so are the inner maps.
+//@ opaque pred InvMaps(a *Allocator) := a != nil && a.allocated != nil && a.sharingKeyForIP != nil && a.portsInUse != nil && a.servicesOnIP != nil
 //@     && a.poolIPsInUse != nil && a.poolIPV4InUse != nil && a.poolIPV6InUse != nil && a.poolToCounters != nil && a.pools != nil && a.pools.ByName != nil
+//@     && distinct(a.allocated, a.sharingKeyForIP, a.portsInUse, a.servicesOnIP, a.poolIPsInUse, a.poolIPV4InUse, a.poolIPV6InUse, a.pools.ByName)
 //@     && (forall x string :: x in a.portsInUse ==> a.portsInUse[x] != nil)
-//@     && (forall x string, y string :: x != y && x in a.portsInUse && y in a.portsInUse ==> a.portsInUse[x] != a.portsInUse[y])
+//@     && (forall x string, y string :: { mapval(a.portsInUse, x), mapval(a.portsInUse, y) } x != y && x in a.portsInUse && y in a.portsInUse ==> a.portsInUse[x] != a.portsInUse[y])
 //@     && (forall x string :: x in a.servicesOnIP ==> a.servicesOnIP[x] != nil)
-//@     && (forall x string, y string :: x != y && x in a.servicesOnIP && y in a.servicesOnIP ==> a.servicesOnIP[x] != a.servicesOnIP[y])
+//@     && (forall x string, y string :: { mapval(a.servicesOnIP, x), mapval(a.servicesOnIP, y) } x != y && x in a.servicesOnIP && y in a.servicesOnIP ==> a.servicesOnIP[x] != a.servicesOnIP[y])
 //@     && (forall n string :: n in a.pools.ByName ==> a.pools.ByName[n] != nil)
 
+// I1: servicesOnIP is exactly "who holds what".
 //@ pred InvSvc(a *Allocator, on bool, svc string, al *alloc, i int) :=
-//@     forall x string, s string :: (s in a.servicesOnIP[x]) == HoldsG(a, on, svc, al, i, s, x)
+//@     forall x string, s string :: (s in a.servicesOnIP[x]) == HoldsG(a.allocated[s], on, svc, al, i, s, x)
+// I2: portsInUse[x] maps exactly the ports in use on x to their (single) owner.
 //@ pred InvPorts(a *Allocator, on bool, svc string, al *alloc, i int, j int) :=
-//@     (forall x string, s string, p Port :: OwnsPortG(a, on, svc, al, i, j, s, x, p) ==> (p in a.portsInUse[x]) && a.portsInUse[x][p] == s)
-//@     && (forall x string, p Port :: (p in a.portsInUse[x]) ==> OwnsPortG(a, on, svc, al, i, j, a.portsInUse[x][p], x, p))
-//@ pred InvKeys(a *Allocator, on bool, svc string, al *alloc, i int) :=
-//@     (forall x string :: (a.sharingKeyForIP[x] != nil) == (x in a.portsInUse))
-//@     && (forall x string :: (x in a.portsInUse) == (exists s string :: HoldsG(a, on, svc, al, i, s, x)))
-//@     && (forall x string, s string :: HoldsG(a, on, svc, al, i, s, x) ==> *a.sharingKeyForIP[x] == AllocG(a, on, svc, al, s).key)
-//@     && (forall x string, s1 string, s2 string :: s1 != s2 && HoldsG(a, on, svc, al, i, s1, x) && HoldsG(a, on, svc, al, i, s2, x) ==> AllocG(a, on, svc, al, s1).key.sharing != "")
+//@     (forall x string, s string, p Port :: OwnsPortG(s in a.servicesOnIP[x], a.allocated[s], on, svc, al, i, j, s, x, p) ==> (p in a.portsInUse[x]) && a.portsInUse[x][p] == s)
+//@     && (forall x string, p Port :: { mapdom(mapval(a.portsInUse, x), p) } (p in a.portsInUse[x]) ==>
+//@             OwnsPortG(a.portsInUse[x][p] in a.servicesOnIP[x], a.allocated[a.portsInUse[x][p]], on, svc, al, i, j, a.portsInUse[x][p], x, p))
 //@ pred InvAllocs(a *Allocator, on bool, al *alloc) :=
 //@     (forall s string :: a.allocated[s] != nil ==> WFAlloc(a.allocated[s]) && PoolMapsFor(a, a.allocated[s].pool))
 //@     && (on ==> WFAlloc(al) && PoolMapsFor(a, al.pool))
-//@ pred PoolMapsFor(a *Allocator, pool string) := a.poolIPsInUse[pool] != nil && a.poolIPV4InUse[pool] != nil && a.poolIPV6InUse[pool] != nil
 //@ pred InvG(a *Allocator, on bool, svc string, al *alloc, i int, j int) :=
-//@     InvMaps(a) && InvSvc(a, on, svc, al, i) && InvPorts(a, on, svc, al, i, j) && InvKeys(a, on, svc, al, i) && InvAllocs(a, on, al)
+//@     InvMaps(a) && InvSvc(a, on, svc, al, i) && InvPorts(a, on, svc, al, i, j) && InvAllocs(a, on, al)
 //@ pred Inv(a *Allocator) := InvG(a, false, "", nil, 0, 0)
 
 //@ func deleteStatsFor
@@ -113,7 +117,41 @@ package allocator
 //@   ensures Inv(a)
 //@   ensures a.allocated[svc] == nil
 //@   ensures forall s string :: s != svc ==> a.allocated[s] == old(a.allocated[s])
-//@   loop 1 invariant al != nil && al == old(a.allocated[svc]) && a.allocated[svc] == nil && InvG(a, true, svc, al, iter, 0)
+//@   loop 1 invariant al != nil && al == old(a.allocated[svc]) && a.allocated[svc] == nil
 //@   loop 1 invariant forall s string :: s != svc ==> a.allocated[s] == old(a.allocated[s])
-//@   loop 2 invariant al != nil && a.allocated[svc] == nil && 0 <= idx(1) && idx(1) < len(al.ips) && InvG(a, true, svc, al, idx(1), iter)
-//@   loop 2 invariant forall s string :: s != svc ==> a.allocated[s] == old(a.allocated[s])
+//@   loop 1 invariant InvMaps(a)
+//@   loop 1 invariant InvAllocs(a, true, al)
+//@   loop 1 invariant InvSvc(a, true, svc, al, iter)
+//@   loop 1 invariant InvPorts(a, true, svc, al, iter, 0)
+//@   loop 2 invariant 0 <= idx(1) && idx(1) < len(al.ips)
+//@   loop 2 invariant InvPorts(a, true, svc, al, idx(1), iter)
+// facts about the pending entry (pure, over the immutable record al)
+//@   assert after delete#1: [pend0] forall x string :: PendingIP(al, 0, x) == HasIP(al, x)
+//@   assert after delete#1: [holds0] forall cur *alloc, s string, x string :: HoldsG(ite(s == svc, nil, cur), true, svc, al, 0, s, x) == HoldsG(ite(s == svc, al, cur), false, "", nil, 0, s, x)
+//@   assert after delete#1: [owns0] forall in bool, cur *alloc, s string, x string, p Port :: OwnsPortG(in, ite(s == svc, nil, cur), true, svc, al, 0, 0, s, x, p) == OwnsPortG(in, ite(s == svc, al, cur), false, "", nil, 0, 0, s, x, p)
+//@   assert after String#1: [pendHere] PendingIP(al, idx(1), net.ipstr(ip))
+//@   assert after String#1: [hasPort] HasPort(al, port)
+//@   assert after String#1: [notRel] !ReleasedPort(al, idx(1), idx(2), net.ipstr(ip), port)
+//@   assert after String#1: [own] OwnsPortG(true, nil, true, svc, al, idx(1), idx(2), svc, net.ipstr(ip), port)
+//@   assert after delete#2: [relStep] forall x string, p Port :: ReleasedPort(al, idx(1), idx(2) + 1, x, p) == (ReleasedPort(al, idx(1), idx(2), x, p) || (x == net.ipstr(ip) && p == port))
+//@   assert after delete#2: [ownStep] forall in bool, cur *alloc, s string, x string, p Port :: OwnsPortG(in, cur, true, svc, al, idx(1), idx(2) + 1, s, x, p) ==
+//@       (OwnsPortG(in, cur, true, svc, al, idx(1), idx(2), s, x, p) && !(s == svc && x == net.ipstr(ip) && p == port))
+//@   assert after delete#3: [pendStep] forall x string :: PendingIP(al, idx(1) + 1, x) == (PendingIP(al, idx(1), x) && x != net.ipstr(ip))
+//@   assert after delete#3: [holdsStep] forall cur *alloc, s string, x string :: (s != svc || cur == nil) ==> HoldsG(cur, true, svc, al, idx(1) + 1, s, x) == (HoldsG(cur, true, svc, al, idx(1), s, x) && !(s == svc && x == net.ipstr(ip)))
+//@   assert after delete#3: [relAll] forall p Port :: HasPort(al, p) ==> ReleasedPort(al, idx(1), len(al.ports), net.ipstr(ip), p)
+//@   assert after delete#3: [relNone] forall x string, p Port :: !ReleasedPort(al, idx(1) + 1, 0, x, p) && (x != net.ipstr(ip) ==> !ReleasedPort(al, idx(1), len(al.ports), x, p))
+//@   assert after delete#3: [svcNext] InvSvc(a, true, svc, al, idx(1) + 1)
+//@   assert after delete#3: [pn1a] forall x string, s string, p Port :: OwnsPortG(s in a.servicesOnIP[x], a.allocated[s], true, svc, al, idx(1) + 1, 0, s, x, p) ==> (p in a.portsInUse[x]) && a.portsInUse[x][p] == s
+//@   assert after delete#3: [pn2a] forall x string, p Port :: { mapdom(mapval(a.portsInUse, x), p) } (p in a.portsInUse[x]) ==>
+//@       OwnsPortG(a.portsInUse[x][p] in a.servicesOnIP[x], a.allocated[a.portsInUse[x][p]], true, svc, al, idx(1) + 1, 0, a.portsInUse[x][p], x, p)
+//@   assert after delete#5: [emptyX] forall p Port :: !pre(p in a.portsInUse[net.ipstr(ip)])
+//@   assert before To4#1: [svcMerge] InvSvc(a, true, svc, al, idx(1) + 1)
+//@   assert before To4#1: [portsMerge] InvPorts(a, true, svc, al, idx(1) + 1, 0)
+//@   assert before deleteStatsFor: [pendEnd] forall x string :: !PendingIP(al, len(al.ips), x)
+//@   assert before deleteStatsFor: [holdsEnd] forall cur *alloc, s string, x string :: (cur != nil || s != svc) ==> HoldsG(cur, false, "", nil, 0, s, x) == HoldsG(cur, true, svc, al, len(al.ips), s, x)
+//@   assert before deleteStatsFor: [svcGone] forall x string :: !(svc in a.servicesOnIP[x])
+//@   assert before deleteStatsFor: [ownEnd] forall in bool, cur *alloc, s string, x string, p Port :: s != svc ==> OwnsPortG(in, cur, false, "", nil, 0, 0, s, x, p) == OwnsPortG(in, cur, true, svc, al, len(al.ips), 0, s, x, p)
+//@   assert before updatePoolStats: [pendEnd2] forall x string :: !PendingIP(al, len(al.ips), x)
+//@   assert before updatePoolStats: [holdsEnd2] forall cur *alloc, s string, x string :: (cur != nil || s != svc) ==> HoldsG(cur, false, "", nil, 0, s, x) == HoldsG(cur, true, svc, al, len(al.ips), s, x)
+//@   assert before updatePoolStats: [svcGone2] forall x string :: !(svc in a.servicesOnIP[x])
+//@   assert before updatePoolStats: [ownEnd2] forall in bool, cur *alloc, s string, x string, p Port :: s != svc ==> OwnsPortG(in, cur, false, "", nil, 0, 0, s, x, p) == OwnsPortG(in, cur, true, svc, al, len(al.ips), 0, s, x, p)
